@@ -138,6 +138,10 @@ class ClassInfo:
     def is_subclass_of(self, other: "ClassInfo") -> bool:
         return other in self.mro()
 
+    def loc(self, node: Optional[ast.AST] = None) -> str:
+        n = node if node is not None else self.node
+        return "%s:%d" % (self.module.relpath, getattr(n, "lineno", 0))
+
     def __repr__(self):
         return "<class %s>" % self.fq
 
